@@ -56,6 +56,10 @@ Definition mismatches (cs : list case) : list N :=
   map c_id (filter (fun c => negb (model_ok c)) cs).
 
 (* ---------- the property, judged on the observation ---------- *)
+(* The signature kinds below stay although /repo no longer shows any of them: 11/13/14 were the
+   ldap session-state-on-the-service-object defect, 22 the ftp shared command channel, 23 the
+   ftp shared working directory, 32 the smtp shared receive channel (92, or a hang, with two
+   smtp services).  A regression is reported under the same code with the scenario as replay. *)
 Definition SIG_REPLY_ELSEWHERE := 1.   (* a reply to i's request arrived on another connection *)
 Definition SIG_EVENT_ELSEWHERE := 2.   (* an event caused by i's request carries another connection's address *)
 Definition SIG_REPLIES_DEPEND := 3.    (* what i received differs from what the same session receives alone *)
@@ -63,10 +67,12 @@ Definition SIG_EVENTS_DEPEND := 4.     (* the events under i's address differ fr
 Definition SIG_SESSION_ID := 5.        (* session ids and addresses do not correspond one to one *)
 Definition SIG_ADDRESS := 6.           (* an event with an unknown source or a wrong destination *)
 
-Definition svc_port (svc : N) : N :=
+(* the destination port an event of connection [conn] must name *)
+Definition svc_port (svc conn : N) : N :=
   if svc =? SVC_LDAP then 389 else if svc =? SVC_FTP then 21 else if svc =? SVC_SMTP then 25
   else if svc =? SVC_TFTP then 69 else if svc =? SVC_TELNET then 23 else if svc =? SVC_REDIS then 6379
-  else if svc =? SVC_MEMCACHED then 11211 else 80.
+  else if svc =? SVC_MEMCACHED then 11211 else if svc =? SVC_HTTP then 80
+  else (* SVC_SMTP2 *) if N.even conn then 587 else 25.
 
 Fixpoint dedup (l : list N) : list N :=
   match l with [] => [] | x :: r => if memN x r then dedup r else x :: dedup r end.
@@ -99,7 +105,7 @@ Definition sid_ok (ps : list (N * N)) : bool :=
 
 Definition addr_ok (c : case) : bool :=
   forallb (fun s : ostep => forallb (fun e =>
-     (oe_dport e =? svc_port (c_svc c)) && memN (oe_conn e) (trace_ids (c_trace c))) (snd s)) (c_obs c).
+     (oe_dport e =? svc_port (c_svc c) (oe_conn e)) && memN (oe_conn e) (trace_ids (c_trace c))) (snd s)) (c_obs c).
 
 Definition case_sigs (c : case) : list N :=
   let oo := obs_outs c in
